@@ -86,6 +86,8 @@ static int run_mode, run_count, run_limit;
 /* process watches: the child of watch number id has pid PIDBASE + id; waitpid is replaced at link time */
 #define PIDBASE 1000000
 static int child_status[MAXW];   /* >= 0: exited with this status, not yet reaped; -1 running; -2 reaped */
+static int hold_root, winch_seq;  /* wr / zw: see do_act */
+static void on_alarm(int s) { (void)s; _exit(3); }   /* a hang is reported as a crash of the case */
 static int dropped;              /* d: the application's reference has been dropped (from a callback or between ops) */   /* u<k>: tickit_run; the k-th ppoll of the run stops the loop */
 static char out[1 << 18];
 static size_t outn;
@@ -241,6 +243,8 @@ static int do_act(const char *a)
     }
     return 1;
   }
+  if(a[0] == 'w' && a[1] == 'r' && a[2] == 0) { hold_root = 1; return 1; }   /* the application keeps a reference on the root window beyond the instance */
+  if(a[0] == 'z' && a[1] == 'w' && a[2] == 0) { winch_seq = 1; return 1; }   /* after the case: observe SIGWINCH on terminals A, B; stop on A; again on A; on C */
   if(a[0] == 's' && a[1] == 0) { tickit_stop(T); return 1; }
   if(a[0] == 'd' && a[1] == 0) { if(T && !dropped) { dropped = 1; tickit_unref(T); } return 1; }   /* drop the application's reference */
   if(a[0] == 'e') { errno = atoi(a + 1); return 1; }
@@ -329,7 +333,7 @@ static void loop_case(void)
 {
   size_t heap_before = __sanitizer_get_current_allocated_bytes();
   outn = 0; out[0] = 0;
-  nws = 0; vclock = 0; iter = 0; ninwait = 0; sleep_mode = 0; run_mode = 0; dropped = 0;
+  nws = 0; vclock = 0; iter = 0; ninwait = 0; sleep_mode = 0; run_mode = 0; dropped = 0; hold_root = 0; winch_seq = 0;
   for(int i = 0; i < MAXCB; i++) cbs[i] = ubs[i] = NULL;
   for(int i = 0; i < MAXW; i++) child_status[i] = -1;
   for(int j = 0; j < NFD; j++) ready[j] = 0;
@@ -388,7 +392,28 @@ static void loop_case(void)
   sigset_t pend; sigpending(&pend);
   for(int s = 1; s < 32; s++)
     if(sigismember(&pend, s)) signal(s, SIG_IGN);
+  TickitWindow *rootw = (hold_root && !dropped) ? tickit_window_ref(tickit_get_rootwin(T)) : NULL;
   if(!dropped) tickit_unref(T);
+  if(rootw) {
+    /* the window outlives the instance: it must not use it any more */
+    tickit_window_flush(rootw);          /* the damage of its creation */
+    tickit_window_expose(rootw, NULL);   /* new damage: asks for later processing */
+    tickit_window_flush(rootw);
+    tickit_window_unref(rootw);
+  }
+  if(winch_seq) {
+    TickitTerm *ta = tickit_term_new_for_termtype("xterm"), *tb = tickit_term_new_for_termtype("xterm"),
+               *tc = tickit_term_new_for_termtype("xterm");
+    signal(SIGALRM, on_alarm); alarm(3);
+    tickit_term_observe_sigwinch(ta, true);
+    tickit_term_observe_sigwinch(tb, true);
+    tickit_term_observe_sigwinch(ta, false);
+    tickit_term_observe_sigwinch(ta, true);
+    tickit_term_observe_sigwinch(tc, true);     /* walks the observer list to its end */
+    raise(SIGWINCH);                            /* so does the handler */
+    alarm(0); signal(SIGALRM, SIG_DFL);
+    tickit_term_unref(ta); tickit_term_unref(tb); tickit_term_unref(tc);
+  }
   T = NULL;
   /* everything the instance allocated must be gone (the dropped timer of defect #22) */
   if(__sanitizer_get_current_allocated_bytes() > heap_before) OUT("LEAK ");
